@@ -24,6 +24,9 @@ type PkgSpec struct {
 	Dir   string   `json:"dir"`   // directory relative to the repo root
 	Name  string   `json:"name"`  // package name
 	Files []string `json:"files"` // harness files relative to the property's harness dir
+	// Helper packages only receive extra (exported) construction helpers that a harness in
+	// another package needs; they get no harness API and no replay test of their own.
+	Helper bool `json:"helper"`
 }
 
 type TierSpec struct {
@@ -129,12 +132,14 @@ func cmdCheck(args []string) int {
 	var pkgPaths []string
 	for _, ps := range spec.Packages {
 		pkgPaths = append(pkgPaths, ps.Path)
-		api, err := apiFile(*verif, ps.Name, false)
-		if err != nil {
-			fmt.Fprintln(os.Stderr, "error:", err)
-			return 2
+		if !ps.Helper {
+			api, err := apiFile(*verif, ps.Name, false)
+			if err != nil {
+				fmt.Fprintln(os.Stderr, "error:", err)
+				return 2
+			}
+			overlay[filepath.Join(*repo, ps.Dir, "zz_verif_api.go")] = api
 		}
-		overlay[filepath.Join(*repo, ps.Dir, "zz_verif_api.go")] = api
 		for _, f := range ps.Files {
 			b, err := os.ReadFile(filepath.Join(hdir, f))
 			if err != nil {
